@@ -316,6 +316,25 @@ def main(tier):
             if got != want or dict(d) != before:
                 chk.add_failure({"predicate": L.show(spec), "spec": repr(spec), "value": f"{type(d).__name__}({before!r})"},
                                 {"what": "has_key_p differs from `key in mapping` on a dict subclass (or changed the mapping)", "implementation": L.outcome_wire(got), "plain_python": L.outcome_wire(want), "mapping_after": repr(dict(d))}, None)
+    # keys of every shape (dots, slashes, brackets, empty, blank, tuples, numbers equal across types, None) against dictionaries that hold
+    # them literally, hold look-alikes (a nested path, a stripped / lower-cased variant) or hold nothing: `key in mapping`, nothing else
+    odd_keys = ["a.b", ".", "v1.0", "a/b", "a[0]", "", " ", "a ", "A", "a", "0", 0, 0.0, False, 1, True, None, (1, 2), ("a", "b"), "a.b.c", "*", "a,b", b"a", frozenset({1})]
+    odd_dicts = [lambda: {"a.b": 1}, lambda: {"a": {"b": 1}}, lambda: {"a": {"b": {"c": 1}}}, lambda: {".": 0}, lambda: {"": {"": 1}}, lambda: {"v1": {"0": 1}}, lambda: {"v1.0": None}, lambda: {"a/b": 1},
+                 lambda: {"a": [1]}, lambda: {"a[0]": 1}, lambda: {"": 1}, lambda: {" ": 1}, lambda: {"a": 1}, lambda: {"A": 1}, lambda: {0: "x"}, lambda: {"0": "x"}, lambda: {1: "x"}, lambda: {None: 1},
+                 lambda: {(1, 2): 1}, lambda: {1: {2: 1}}, lambda: {"a": 1, "b": 2}, lambda: {("a", "b"): 1}, lambda: {"*": 1}, lambda: {"a,b": 1}, lambda: {b"a": 1}, lambda: {frozenset({1}): 1}, lambda: {}]
+    from predicate.standard_predicates import has_key_p as _has_key_p
+
+    for k in odd_keys:
+        p = _has_key_p(k)
+        for mk in odd_dicts:
+            d = mk()
+            before = repr(d)
+            want = ("ok", k in d)
+            got = L.run(p, d)
+            sub_cases += 1
+            if got != want or repr(d) != before:
+                chk.add_failure({"predicate": f"has_key_p({k!r})", "value": before},
+                                {"what": "has_key_p differs from `key in mapping`", "implementation": L.outcome_wire(got), "plain_python": L.outcome_wire(want)}, None)
     chk.evaluations += sub_cases
     chk.extra["mapping_subclass_cases"] = sub_cases
     # ---- strings that are canonically equivalent but different (NFD / NFC, compatibility forms, case): the comparison and
